@@ -70,7 +70,7 @@ def judge(ctx, cases):
             recs.append({"api": b["api"], "kind": b["kind"], "locus": locus, "witness": {"history": h, "mode": b["api"]},
                          "case": {"h": h, "mode": b["api"]}, "detail": {"m": b["m"], "pred": b["pred"]}})
         else:
-            kinds = "+".join(sorted({f["k"] + ("=" + f["v"] if f["v"] != "n" else "") for f in case.get("f", [])})) or case.get("top", "")
+            kinds = "+".join(sorted({f["k"] + ("=" + f["v"] if f["v"] != "n" else "") for f in case.get("f", [])})) or (case.get("top", "") + "=" + case.get("v", ""))
             culprit = classify_rt(case, b["m"])
             recs.append({"api": b["api"], "kind": b["kind"], "locus": "inverse|" + culprit, "witness": kinds,
                          "case": {"f": case.get("f", []), "top": case.get("top", ""), "v": case.get("v", ""), "api": case["api"]},
@@ -81,7 +81,9 @@ def judge(ctx, cases):
 def classify_rt(case, m):
     """coarse locus of a failed round trip: the field kinds present that are known not to round trip, else the kinds"""
     fs = case.get("f", [])
-    ks = sorted({f["k"] + ("=" + f["v"] if f["v"] != "n" else "") for f in fs})
+    if case.get("top"):
+        return "top:" + case["top"]
+    ks = sorted({f["k"] for f in fs})
     return "+".join(ks) if len(ks) <= 1 else "+".join(k for k in ks if not k.startswith(("int", "string"))) or "+".join(ks)
 
 
@@ -108,14 +110,17 @@ def main(ctx):
         raise Infra("shape generation failed:\n" + g.out[-2000:])
     sseen = set()
     for c in g.printed("CASE"):
-        if all(f["k"] in RT_KINDS and f["t"] in ("", "nm") for f in c["f"]) and (ctx.quick is False or len(c["f"]) <= 2):
+        # W=e holds a *enctypes2.T: its create key "T" names enctypes.T unless FullTypePath is used (ambiguous by design)
+        if all(f["k"] in RT_KINDS and f["t"] in ("", "nm") and not (f["k"] == "W" and f["v"] == "e") for f in c["f"]) \
+                and (ctx.quick is False or len(c["f"]) <= 2):
             k = json.dumps(c, sort_keys=True)
             if k not in sseen:
                 sseen.add(k)
                 cases.append(c)
-    for top in ("S", "T1", "T2", "U", "V", "W", "Tagged", "Emb", "EmbPtr"):
+    for top in ("S", "T1", "T2", "U", "V", "W", "Emb", "EmbPtr"):
         for v in ("z", "n", "e"):
-            cases.append({"f": [], "top": top, "v": v})
+            if (top, v) != ("W", "e"):
+                cases.append({"f": [], "top": top, "v": v})
     recs = judge(ctx, cases)
     for r_ in recs:
         ctx.add(r_["api"], r_["kind"], r_["locus"], r_["witness"], case=r_["case"], detail=r_.get("detail"))
@@ -128,7 +133,7 @@ def main(ctx):
                        "process per history, on alt.DefaultRecomposer via alt.Recompose / oj.Unmarshal / sen.Unmarshal, each call "
                        "compared with a fresh recomposer and with the original; plus Decompose->Recompose, Marshal->Unmarshal and "
                        "sen round trips of the recomposable C15 shapes. distinct_nontrivial = histories." % (3 if ctx.quick else 4))
-    ctx.cov["exhaustive"] = True
+    ctx.cov["exhaustive"] = False
     ctx.assumptions += ["deep equality is judged by TLC on the typed projection of reflect values (nil and empty slices/maps identified)",
                         "interface-typed fields: the held types are registered and a create key is used; the A.W history target is "
                         "exempt from Inverse (its type is deliberately not registered)"]
